@@ -6,7 +6,7 @@ C18 — reports say what was scheduled.
 All theorems are about `SP.Report` (Model/Report.lean), for every scheduled project given as data,
 every column list (duplicates, unknown ids, API titles), every time format, leaf flag and format list.
 The model carries the *repaired* behaviour for F19 (dates of unscheduled tasks) and F28 (cost walks the
-ledger); F20 (JSON keys collapse) is an open finding: full statement refuted, partial statement proved.
+ledger); JSON = CSV for every column list (F20 — keys collapsing for repeated titles — is repaired: keys are made unique).
 -/
 namespace SP.C18
 open SP SP.Report
@@ -114,59 +114,39 @@ theorem strftime_default (t : Int) (h : yearOk (civilOf t) = true) :
 
 /-! ## JSON and CSV carry identical cells -/
 
-/-- the JSON keys of the columns are pairwise different -/
-def DistinctTitles (s : Spec) : Prop := ((s.columns.map headerCell).map String.toLower).Nodup
-
-instance (s : Spec) : Decidable (DistinctTitles s) := by unfold DistinctTitles; infer_instance
-
-/-- trigger of finding F20 -/
-def Trigger_F20 (s : Spec) : Prop := ¬ DistinctTitles s
-
-instance (s : Spec) : Decidable (Trigger_F20 s) := by unfold Trigger_F20; infer_instance
-
-/-- the full statement: the cells of the JSON records are the cells of the CSV body rows -/
-def C18_json_full : Prop :=
-  ∀ (p : Project) (s : Spec), jsonCells (toJson (generate p s)) = (toCsv (generate p s)).tail
-
-/-- under distinct (lower-cased) titles every JSON record carries exactly the cells of its CSV row,
-    keyed by the lower-cased header, in column order -/
-theorem C18_json_partial (p : Project) (s : Spec) (h : ¬ Trigger_F20 s) :
+/-- **the JSON records carry exactly the cells of the CSV body rows** (finding F20, repaired): for every project, every
+    column list — repeated titles, titles that differ in case only, titles that look like generated keys — the values of
+    every JSON record are the cells of its CSV row, in column order, and the records are keyed by `uniqNames` of the
+    lower-cased header: pairwise different keys, one per column -/
+theorem json_cells_eq_csv (p : Project) (s : Spec) :
     jsonCells (toJson (generate p s)) = (toCsv (generate p s)).tail ∧
-    ∀ rec ∈ (toJson (generate p s)).data, rec.map (·.1) = (generate p s).header.map String.toLower := by
-  have hd : DistinctTitles s := Classical.not_not.mp h
-  have hnd : ((generate p s).header.map String.toLower).Nodup := by simpa [generate, DistinctTitles] using hd
+    (∀ rec ∈ (toJson (generate p s)).data, rec.map (·.1) = uniqNames ((generate p s).header.map String.toLower)) ∧
+    (toJson (generate p s)).columns.Nodup ∧
+    (toJson (generate p s)).columns.length = (generate p s).header.length := by
+  have hu := uniqNames_nodup ((generate p s).header.map String.toLower)
   have hrect := table_rectangular p s
-  refine ⟨?_, ?_⟩
+  refine ⟨?_, ?_, hu.1, by simp [toJson, hu.2]⟩
   · simp only [jsonCells, toJson, toCsv, List.tail_cons, List.map_map]
     conv => rhs; rw [← List.map_id (generate p s).body]
     apply List.map_congr_left
     intro line hl
     simp only [Function.comp, id]
-    exact record_values _ line hnd (by simp [hrect line hl])
+    exact record_values _ line hu.1 (by rw [hu.2]; simp [hrect line hl])
   · intro rec hrec
     simp only [toJson, List.mem_map] at hrec
     obtain ⟨line, hl, rfl⟩ := hrec
-    exact record_keys _ line hnd (by simp [hrect line hl])
+    exact record_keys _ line hu.1 (by rw [hu.2]; simp [hrect line hl])
 
-/-- the trigger is exact: as soon as the report has a row, JSON and CSV carry the same cells
-    *if and only if* the titles are distinct — with a repeated title every record loses a cell -/
-theorem json_eq_csv_iff_distinct (p : Project) (s : Spec) (hrow : rows p s ≠ []) :
-    jsonCells (toJson (generate p s)) = (toCsv (generate p s)).tail ↔ ¬ Trigger_F20 s := by
-  constructor
-  · intro heq htr
-    have hnd : ¬ ((generate p s).header.map String.toLower).Nodup := by
-      simpa [generate, DistinctTitles, Trigger_F20] using htr
-    obtain ⟨t, r, hr⟩ := List.exists_cons_of_ne_nil hrow
-    have hb : (generate p s).body = s.columns.map (cell p s t) :: r.map (fun t => s.columns.map (cell p s t)) := by
-      simp [generate, rows] at hr ⊢; rw [hr]; simp
-    have hlen := record_short ((generate p s).header.map String.toLower) (s.columns.map (cell p s t)) hnd
-    simp only [jsonCells, toJson, toCsv, List.tail_cons, List.map_map, hb, List.map_cons, List.cons.injEq] at heq
-    have := congrArg List.length heq.1
-    simp only [List.length_map] at this
-    simp only [List.length_map] at hlen
-    simp [generate] at this hlen
-    omega
-  · intro h; exact (C18_json_partial p s h).1
+/-- with pairwise different lower-cased titles the keys are those titles, unchanged -/
+theorem json_keys_of_distinct_titles (p : Project) (s : Spec)
+    (h : ((generate p s).header.map String.toLower).Nodup) :
+    (toJson (generate p s)).columns = (generate p s).header.map String.toLower := by
+  simp only [toJson]; exact uniqNames_of_nodup _ h
+
+/-- the pinned `to_json` (keys = lower-cased titles as they are): with a repeated title every record is strictly
+    shorter than its CSV row — this was finding F20 -/
+theorem pinned_record_short (ks : List String) (vs : List Cell) (hd : ¬ ks.Nodup) :
+    ((ks.zip vs).foldl (fun d kv => dictSet d kv.1 kv.2) []).length < ks.length := record_short ks vs hd
 
 /-! the F20 witness: `columns id, start, end, id` -/
 
@@ -181,22 +161,12 @@ def f20Spec : Spec :=
   { columns := [⟨"id", none⟩, ⟨"start", none⟩, ⟨"end", none⟩, ⟨"id", none⟩]
     timeFormat := none, projectTimeformat := none, leafTasksOnly := false, formats := [.json, .csv] }
 
-/-- refutation (not a proof of the property): with two columns titled `Id` the JSON record has three
-    values, the CSV row four cells -/
-theorem C18_json_full_fails : ¬ C18_json_full := by
-  intro h
-  have := h f20Project f20Spec
-  revert this
+/-- the witness after the repair: four keys, the repeated title qualified with its column position -/
+example : (toJson (generate f20Project f20Spec)).columns = ["id", "start", "end", "id_4"] := by decide +kernel
+
+example : uniqNames ["id", "start", "end", "id", "id_4", "id"] = ["id", "start", "end", "id_4", "id_4_5", "id_6"] := by
   decide +kernel
 
-example : Trigger_F20 f20Spec := by decide +kernel
-
-/-- `json_eq_csv_iff_distinct` applies to the witness -/
-example : rows f20Project f20Spec ≠ [] := by decide +kernel
-
-/-- the hypothesis of the partial theorem is satisfiable by a non-trivial report -/
-example : ¬ Trigger_F20 { f20Spec with columns := [⟨"id", none⟩, ⟨"start", none⟩, ⟨"end", none⟩, ⟨"cost", none⟩] } := by
-  decide +kernel
 
 /-! ## money: cost = rate × booked time -/
 
